@@ -67,8 +67,11 @@ fn main() {
                 }
                 if poisoned {
                     writeln!(w, "skip\tok").unwrap();
+                    w.flush().unwrap();
                     continue;
                 }
+                // everything written so far must be visible if the real code aborts the process
+                w.flush().unwrap();
                 let r = runner.get_or_insert_with(|| prop.runner());
                 let res = catch_unwind(AssertUnwindSafe(|| r.step(&toks)));
                 match res {
@@ -85,6 +88,7 @@ fn main() {
                     }
                 }
             }
+            w.flush().unwrap();
         }
         _ => {
             eprintln!("unknown mode");
